@@ -643,7 +643,7 @@ fn value_conversions(cx: &mut Ctx) {
         cx.fail(rule, &format!("{}/rewrite", rule), &lx.rel, "the literal text is rewritten in a way other than lower-casing the exponent marker");
     }
     match lr::lexer_method(&lx, "take_number") {
-        Some(m) if sm::tsx(&m.block) == "{lettake_char=Lexer::<T>::is_digit_of_radix(self.window[0],radix);take_char.then(||self.next_char().unwrap())}" => cx.ok(rule, "take_number consumes window[0] iff it is a digit of the radix"),
+        Some(m) if ["{lettake_char=Lexer::<T>::is_digit_of_radix(self.window[0],radix);take_char.then(||self.next_char().unwrap())}", "{(Lexer::<T>::is_digit_of_radix(self.window[0],radix)).then(||self.next_char().unwrap())}", "{Lexer::<T>::is_digit_of_radix(self.window[0],radix).then(||self.next_char().unwrap())}"].contains(&sm::tsc(&m.block).as_str()) => cx.ok(rule, "take_number consumes window[0] iff it is a digit of the radix"),
         Some(m) => cx.fail(rule, &format!("{}/take_number", rule), &lx.loc(m), "take_number is not `is_digit_of_radix(window[0], radix).then(|| next_char().unwrap())`"),
         None => cx.anchor_missing(rule, "take_number"),
     }
